@@ -281,6 +281,9 @@ type Rules struct {
 	// AnyFloatWidth: float32 and float64 of the same numeric value are equal
 	// (used for transcoding through JSON, which erases the width).
 	AnyFloatWidth bool
+	// AllUnordered: every object is compared as a multiset of members (used
+	// when both sides come from Go map iteration).
+	AllUnordered bool
 	// AnyNaN: all NaNs of one width are the same value (payload and sign are
 	// not part of the value). Used where values pass through Go float
 	// conversions, which quiet signalling NaNs.
@@ -408,7 +411,7 @@ func diff(exp, got V, r Rules, path string) string {
 		if len(exp.O) != len(got.O) {
 			return fmt.Sprintf("%s: expected object of %d members, got %d: expected %v, got %v", path, len(exp.O), len(got.O), exp, got)
 		}
-		if exp.Unordered || got.Unordered {
+		if exp.Unordered || got.Unordered || r.AllUnordered {
 			// members from a Go map: compare as a multiset (greedy matching;
 			// keys are distinct unless sanitising made them collide)
 			used := make([]bool, len(got.O))
